@@ -16,13 +16,20 @@ from check import Result  # noqa: E402
 #   runs: (module, scope, depth) per tier
 IR_RUNS = {
     "C01": {"quick": [("MC", "conn", 2), ("MC", "contain", 3), ("MC", "body", 2)],
-            "thorough": [("MC", "conn", 3), ("MC", "contain", 4), ("MC", "body", 3), ("MC", "mirror", 3)]},
-    "C02": {"quick": [("MC", "mirror", 2), ("MC", "conn", 2)],
-            "thorough": [("MC", "mirror", 3), ("MC", "conn", 3)]},
-    "C14": {"quick": [("MC", "conn", 2), ("MC", "mirror", 2), ("MC", "body", 2)],
-            "thorough": [("MC", "conn", 3), ("MC", "mirror", 3), ("MC", "body", 3), ("MC", "contain", 4)]},
+            "thorough": [("MC", "conn", 3), ("MC", "contain", 4), ("MC", "body", 3), ("MC", "mirror", 2)]},
+    "C02": {"quick": [("MC", "mirror", 1), ("MC", "mirror_add", 2), ("MC", "conn", 2)],
+            "thorough": [("MC", "mirror", 2), ("MC", "mirror_add", 3), ("MC", "conn", 3)]},
+    "C14": {"quick": [("MC", "conn", 2), ("MC", "mirror", 1), ("MC", "mirror_add", 2), ("MC", "naming", 2),
+                      ("MC", "naming_edif", 2)],
+            "thorough": [("MC", "conn", 3), ("MC", "mirror", 2), ("MC", "mirror_add", 3), ("MC", "body", 3), ("MC", "contain", 4),
+                         ("MC", "naming", 3), ("MC", "naming_edif", 3), ("MC", "naming_mix", 3)]},
+    "C10": {"quick": [("MC", "naming", 2), ("MC", "naming_edif", 2), ("MC", "naming_mix", 2)],
+            "thorough": [("MC", "naming", 3), ("MC", "naming_edif", 3), ("MC", "naming_mix", 3)]},
 }
 IR_RULE = {
+    "C10": "every (reachable model state of the naming scopes, candidate call) pair, under the DEFAULT, the EDIF and a "
+           "mixed policy configuration; after every call every naming scope is asked for every alphabet value under "
+           "both keys; distinct_nontrivial counts distinct (pre-state, call) pairs",
     "C01": "every (reachable model state within the scope's depth, candidate call) pair is executed on "
            "the real classes; distinct_nontrivial counts distinct (pre-state, call) pairs whose call "
            "changed the state or was refused",
@@ -41,6 +48,51 @@ def _sig_of(rec, header):
             sig[k] = c[k]
     if isinstance(c.get("pin"), dict):
         sig["pin_kind"] = c["pin"].get("k")
+    return sig
+
+
+_LIST = {"L": "nlLibs", "D": "libDefs", "P": "defPorts", "C": "defCables", "I": "defKids"}
+_DATA = {"N": "nlData", "L": "libData", "D": "defData", "P": "portData", "C": "cabData", "I": "instData"}
+_FOLD = str.lower
+
+
+def _lookup_classes(st):
+    """classify the disagreeing entries of a logged lookup table (for finding signatures only -
+    the verdict itself is TLC's evaluation of C10_LookupAgrees)"""
+    classes = set()
+    for e in st.get("lookup", []):
+        sibs = st[_LIST[e["ck"]]][e["p"] - 1]
+        pol = st[_DATA[e["pk"]]][e["p"] - 1]["ns"]
+        fold = e["key"] == "eid" and pol == "EDIF"
+        exp = [y for y in sibs if st[_DATA[e["ck"]]][y - 1][e["key"]] != "" and
+               (_FOLD(st[_DATA[e["ck"]]][y - 1][e["key"]]) == _FOLD(e["val"]) if fold
+                else st[_DATA[e["ck"]]][y - 1][e["key"]] == e["val"])]
+        res = e["res"]
+        if sorted(res) == sorted(exp) and len(set(res)) == len(res):
+            continue
+        if res and set(res) < set(exp) and len(res) == 1 and not fold and e["key"] == "eid":
+            classes.add("one-of-several-equal-identifiers-under-DEFAULT")
+        elif set(res) - set(exp):
+            classes.add("ghost:" + e["key"])
+        elif len(set(res)) != len(res):
+            classes.add("duplicate:" + e["key"])
+        else:
+            classes.add("missing:" + e["key"])
+    return sorted(classes)
+
+
+def _diff_fields(a, b):
+    if not isinstance(a, dict) or not isinstance(b, dict):
+        return []
+    return sorted(k for k in set(a) | set(b) if a.get(k) != b.get(k))
+
+
+def _detail(sig, clause, rec, header):
+    st = rec.get("state") if rec.get("state") else header.get("state")
+    if clause == "C10_LookupAgrees" and st:
+        sig["lookup_classes"] = _lookup_classes(st)
+    if clause == "C14_RefusedUnchanged" and rec.get("state"):
+        sig["changed_fields"] = _diff_fields(header["state"], rec["state"])
     return sig
 
 
@@ -68,7 +120,7 @@ def ir_history(pid, tier, seed, replay=None, runs=None, strict=True):
                 jobs.append((module, scope, depth, gen, init, groups))
         for module, scope, depth, gen, init, groups in jobs:
             d = os.path.join(out, scope)
-            shards, stats = irflow.replay(init, groups, d)
+            shards, stats = irflow.replay(init, groups, d, lookup=(gen or {}).get("lookup", rp.get("lookup", []) if replay else []))
             tot = {k: sum(s[k] for s in stats) for k in
                    ("groups", "calls", "ok", "refused", "changed_refused", "unbuildable", "records",
                     "nontrivial_refused")}
@@ -86,12 +138,12 @@ def ir_history(pid, tier, seed, replay=None, runs=None, strict=True):
                         continue
                     rec = irflow.read_record(v["path"], k)
                     header = rec if rec["t"] == "reset" else irflow.read_record(v["path"], rec["pre"])
-                    sig = _sig_of(rec, header)
+                    sig = _detail(_sig_of(rec, header), clause, rec, header)
                     res.violations.append({
                         "clause": clause, "signature": sig,
                         "summary": "after %d calls: %s -> %s" % (len(header["h"]), json.dumps(rec.get("call")),
                                                                   rec.get("out")),
-                        "replay": {"module": module, "scope": scope, "init": init, "hist": header["h"],
+                        "replay": {"module": module, "scope": scope, "init": init, "lookup": (gen or {}).get("lookup", []), "hist": header["h"],
                                    "call": rec.get("call"), "observed_out": rec.get("out"),
                                    "exception": rec.get("exc"), "pre": header["state"],
                                    "post": rec.get("state", "same as pre")}})
@@ -129,4 +181,4 @@ def ir_history(pid, tier, seed, replay=None, runs=None, strict=True):
     return res
 
 
-HANDLERS = {"C01": ir_history, "C02": ir_history, "C14": ir_history}
+HANDLERS = {"C01": ir_history, "C02": ir_history, "C14": ir_history, "C10": ir_history}
